@@ -23,7 +23,7 @@ func init() { register(c11{}) }
 
 func (c11) ID() string     { return "C11" }
 func (c11) Level() string  { return "exploration" }
-func (c11) QuickRuns() int { return 30000 }
+func (c11) QuickRuns() int { return 60000 }
 func (c11) Rule() string {
 	return "2-8 concurrent protocol-level runs of mixed protocols to the same or different targets, and RunTraceroute requests with 1-4 runs plus 0-6 (occasionally 50) end-to-end probes, all on one simulated wire where every capture handle sees every inbound packet (and, per knob, every outgoing probe); every flow has its own router addresses so cross-talk is visible; IP-ID and echo-id allocators start at seeded bases near their wrap points; each run must equal the reference fold of its own genuine replies, and identifiers of simultaneously live runs must be disjoint; non-trivial = at least two endpoints were live at the same time and one of them read a packet caused by another; distinct = distinct shapes"
 }
@@ -190,7 +190,7 @@ func init() { register(c12{}) }
 
 func (c12) ID() string     { return "C12" }
 func (c12) Level() string  { return "exploration" }
-func (c12) QuickRuns() int { return 40000 }
+func (c12) QuickRuns() int { return 100000 }
 func (c12) Rule() string {
 	return "every simulated capture handle executes the repository's real cBPF program (obtained through the guarded accessor, run by the x/net/bpf VM on a synthetic Ethernet frame) on every packet that reaches it, in attribution, catalogue, garbage and concurrency scenarios; around each installed filter 8-40 frames are synthesised over the equivalence classes the programs inspect (ethertype, protocol, IHL 0..15, fragment offset and MF, each address/port byte equal/different with 0x01/0x7f/0x80/0xff patterns, all TCP flag bytes, IPv6 next-header chains incl. fragment header, truncation at every load offset); (a) no frame the reference matcher classes genuine for an endpoint (hop or handshake) may be rejected by its filter, (b) on frames with complete headers the verdict must equal a reference predicate written from the property text; non-trivial = a filter rejected at least one frame and accepted at least one; distinct = distinct shapes. Sampling over the class product, not its enumeration"
 }
